@@ -163,7 +163,7 @@ def run_impl(case):
     old = signal.signal(signal.SIGALRM, _alarm)
     try:
         for op in case["ops"]:
-            signal.setitimer(signal.ITIMER_REAL, 3.0)
+            signal.setitimer(signal.ITIMER_REAL, 30.0)  # generous: the machine may be heavily loaded
             try:
                 out = do(op)
             except _Hang:
@@ -374,6 +374,12 @@ def run(chk):
             o = st["out"]
             chk.count("out:" + (o["v"] if o["t"] == "err" else o["t"]))
         verdict = judge(case, ri)
+        if verdict is not None:
+            # confirm in this process before reporting (a loaded machine must not produce a verdict)
+            ri = run_impl(case)
+            verdict = judge(case, ri)
+            if verdict is None:
+                chk.count("flaky:violation-not-reproduced")
         judged_upto = len(case["ops"])
         if verdict is not None:
             k, sig = verdict
@@ -395,6 +401,10 @@ def run(chk):
             b = _truncate(rm, judged_upto)
             if a != b:
                 chk.disagreements_checked += 1
+                ri2 = run_impl(case)
+                if _truncate(ri2, judged_upto) == b:
+                    chk.count("flaky:disagreement-not-reproduced")
+                    continue
 
                 def differs(ops, case=case):
                     c = dict(case, ops=ops)
